@@ -146,7 +146,7 @@ theorem append_root_noLast {Z : Forest} {w n : Nat} {vw : Value} {L : List HTree
     intro e
     apply hpt
     rw [e, ← (findList?_some Z.roots t' hgn).1]
-    exact handle_mem_handles t'
+    exact fs_handle_mem_handles t'
   have hanc : (Z.ancestors w).contains n = false := by
     cases h : (Z.ancestors w).contains n with
     | false => rfl
@@ -196,7 +196,7 @@ theorem nodup_insertLast_fresh {X : Forest} {p : Nat} {v : Value} {K : List HTre
   apply s.nodup_of_count
   intro z
   unfold insertLast
-  rw [handlesList_append, List.count_append, count_handles_leaf]
+  rw [fs_handlesList_append, List.count_append, count_handles_leaf]
   have h1 : X.allHandles.count z ≤ 1 := List.nodup_iff_count.1 s.nd z
   split
   · rename_i e
@@ -238,7 +238,7 @@ theorem textContentSet_new (inv : f.Inv) (s : Str)
     exact hfresh (hb ▸ e ▸ ha)
   have hgw1 : (f.bump.addRoot T0).get? n = some (.node n (.element nm) L) := Forest.addRoot_get_left T0 hg
   have hgn1 : (f.bump.addRoot T0).get? f.next = some T0 := by
-    rw [Forest.addRoot_get_new (X := f.bump) T0 hfresh]; exact find?_self T0
+    rw [Forest.addRoot_get_new (X := f.bump) T0 hfresh]; exact fs_find?_self T0
   have hroot1 : (f.bump.addRoot T0).isRoot f.next = true := Forest.addRoot_isRoot f.bump T0
   have hanc1 : ((f.bump.addRoot T0).ancestors n).contains f.next = false := by
     cases h : ((f.bump.addRoot T0).ancestors n).contains f.next with
@@ -455,7 +455,7 @@ theorem specTextContentSet_new_handles (s : Str) (nd : f.allHandles.Nodup)
   have st : SiteAt f n v L := ⟨nd, hg⟩
   have := st.count (insertLast (.node f.next (.text s) [])) z
   have e : insertLast (.node f.next (.text s) []) L = L ++ [.node f.next (.text s) []] := rfl
-  rw [e, handlesList_append, List.count_append, count_handles_leaf] at this
+  rw [e, fs_handlesList_append, List.count_append, count_handles_leaf] at this
   rw [List.count_cons]
   simp only [beq_iff_eq]
   omega
@@ -480,7 +480,7 @@ theorem specTextContentSet_new_get_far (s : Str) (nd : f.allHandles.Nodup) (hfre
     (Spec.specTextContentSet n s f).get? x = some t := by
   rw [specTextContentSet_new_eq s hg hk]
   have hxt : t.handle = x := (findList?_some f.roots t hx).1
-  have hxn : x ≠ n := fun e => hn (e ▸ hxt ▸ handle_mem_handles t)
+  have hxn : x ≠ n := fun e => hn (e ▸ hxt ▸ fs_handle_mem_handles t)
   have hxf : x ≠ f.next := fun e => hfresh (e ▸ mem_of_findList?_some hx)
   show (f.editAt (some n) (insertLast (.node f.next (.text s) []))).get? x = _
   rw [Forest.get?_editAt_other hxn nd (fun _ K _ => findList?_insertLast_fresh hxf _ K), hx, Option.map_some,
